@@ -44,7 +44,7 @@ func newVerifier(tier string) (*Verifier, error) {
 	}
 	V := &Verifier{P: P, Tier: tier, usedAsValue: map[string]bool{}, callGraph: map[string]map[string]bool{},
 		missing: map[string]int{}, encs: map[string]*fnEnc{}, encErrs: map[string]error{}, unfolds: map[string]*Sig{}, macroMemo: map[string]bool{}, batteryMemo: map[string]*batteryResult{}}
-	V.Timeout = 10 * time.Second
+	V.Timeout = 20 * time.Second
 	if tier == "thorough" {
 		V.Timeout = 120 * time.Second
 	}
